@@ -103,8 +103,8 @@ AnswerPairing(r) ==
     LET bad == {k \in 1..Len(r.callers) : r.callers[k].exc = "none" /\ CallerPairing(r.driver, r.wire, r.callers[k]) # ""}
     IN IF r.info.loop_exc # "none" THEN Fail("event-loop:" \o r.info.loop_exc, 0)
        ELSE IF r.out.hung # <<>> THEN Fail("caller-never-completed:" \o r.out.hung[1], 0)
-       ELSE IF \E k \in 1..Len(r.callers) : r.callers[k].exc # "none"
-            THEN Fail("caller-raised:" \o r.callers[CHOOSE k \in 1..Len(r.callers) : r.callers[k].exc # "none"].exc, 0)
+       ELSE IF \E k \in 1..Len(r.callers) : r.callers[k].exc \notin {"none", "CancelledError"}
+            THEN Fail("caller-raised:" \o r.callers[CHOOSE k \in 1..Len(r.callers) : r.callers[k].exc \notin {"none", "CancelledError"}].exc, 0)
        ELSE IF bad # {} THEN LET k == CHOOSE x \in bad : TRUE IN
             Fail(CallerPairing(r.driver, r.wire, r.callers[k]) \o ":" \o r.callers[k].name, k)
        ELSE Pass
